@@ -318,8 +318,11 @@ class MatchScenario(NetScenario):
             if kind == "cancel+rst":
                 w.inject(SRV[r.srv], CLI, rc.encode((rc.RST, 0, r.mid, b"", [], b"")))
                 r.acked = True
+                # (the Reset ends the exchange and lets the next held-back message out: if an armed send error bites that one,
+                # the requests towards that endpoint fail for a reason of their own - judged by sendfault_check below)
+                struck = {dst for node, dst in self.fired(st)}
                 for o in st.reqs:
-                    if o is not r and before[o.name] != self.snap1(o):
+                    if o is not r and before[o.name] != self.snap1(o) and SRV[o.srv] not in struck:
                         st.violations.append(Violation("withdrawal-changed-other-request", before[o.name], self.snap1(o),
                                                        "tokenmanager.py:request", {}, key="cancel+rst-other"))
             else:
